@@ -107,6 +107,7 @@ class ModuleInfo:
         src = open(path).read()
         self.lines = src.split('\n')
         self.tree = ast.parse(src, path)
+        self.stars = []       # modules imported with `from X import *`
         self.defs = {}        # name -> ('func', FuncInfo) | ('class', ClassInfo) | ('import', modname, attr|None) | ('assign', node)
         self._scan(self.tree.body)
 
@@ -131,7 +132,10 @@ class ModuleInfo:
                     base = base[:len(base) - (n.level - 1)]
                     mod = '.'.join(base + ([mod] if mod else []))
                 for a in n.names:
-                    self.defs[a.asname or a.name] = ('import', mod, a.name)
+                    if a.name == '*':
+                        self.stars.append(mod)
+                    else:
+                        self.defs[a.asname or a.name] = ('import', mod, a.name)
             elif isinstance(n, ast.Assign):
                 for t in n.targets:
                     if isinstance(t, ast.Name):
